@@ -1698,8 +1698,12 @@ func buildProjections(projected, att *expr.AttributeExpr, viewspkg string, scope
 					AttributeExpr: &expr.AttributeExpr{Type: typ},
 					TypeName:      projected.Type.Name(),
 				},
-				Views:      rt.Views,
-				Identifier: rt.Identifier,
+				Views: rt.Views,
+				// The target only has the attributes of the view: give it
+				// its own identifier so that the nested attributes that
+				// refer back to the projected type are not taken for it
+				// (types are copied by identifier).
+				Identifier: rt.Identifier + "; view=" + view.Name,
 			},
 		}
 
@@ -1900,16 +1904,29 @@ func buildConstructorCode(src, tgt *expr.AttributeExpr, sourceVar, targetVar str
 	// service type to projected type (or vice versa)
 	targetRTs := &expr.Object{}
 	tatt := expr.DupAtt(tgt)
-	tobj := expr.AsObject(tatt.Type)
-	for _, nat := range *tobj {
+	// The target without its result type attributes is a type of its own: the
+	// copy made by DupAtt is also the type of the nested attributes that refer
+	// back to the result type (e.g. from an inline object), removing the
+	// attributes from it would remove them from the code that transforms these
+	// nested attributes as well.
+	tobj := &expr.Object{}
+	for _, nat := range *expr.AsObject(tatt.Type) {
 		if _, ok := nat.Attribute.Type.(*expr.ResultTypeExpr); ok {
 			targetRTs.Set(nat.Name, nat.Attribute)
+		} else {
+			tobj.Set(nat.Name, nat.Attribute)
 		}
 	}
-	// delete once the iteration is over: Delete shifts the attributes that
-	// follow, a result type right after another one would be skipped.
-	for _, nat := range *targetRTs {
-		tobj.Delete(nat.Name)
+	if trt, ok := tatt.Type.(*expr.ResultTypeExpr); ok {
+		stripped := *trt
+		ut := *trt.UserTypeExpr
+		at := *ut.AttributeExpr
+		at.Type = tobj
+		ut.AttributeExpr = &at
+		stripped.UserTypeExpr = &ut
+		// types are copied (and shared) by identifier
+		stripped.Identifier = trt.Identifier + "; no result types"
+		tatt.Type = &stripped
 	}
 	data["Source"] = sourceVar
 	data["Target"] = targetVar
